@@ -110,8 +110,8 @@ CHECKS = {
    technique="Lean 4 proof (DFS invariants: post-order soundness, rank completeness, fuel adequacy) + differential correspondence with independent predicate",
    design="§6-C04"),
  "C02": dict(
-   text="Theorems over ALL acyclic workflows, backend-state vectors, stale flags and endpoint selections (no size bound): the memoised DFS of the model computes the unique declarative status map on exactly the dependency cone (schedule_refines), submits a target iff cone ∧ (failed ∨ cancelled ∨ (not in flight ∧ (stale ∨ some dependency not completed))), never resubmits in-flight targets, each once, dependencies first, with exactly the not-completed direct dependencies as prerequisites. Tied to the code by SUBMITTED_STATES regenerated from source and by running the real schedule() against the model plus the property predicate on every explored case.",
-   note="Model covers scheduling._schedule/_cached_schedule/schedule, should_run, Graph.from_targets, _flatten/_norm_path. status_func assumed constant within an invocation. fnmatch selection not modelled here (selection enters as the endpoint list).",
+   text="Theorems over ALL acyclic workflows, backend-state vectors, stale flags and endpoint selections (no size bound): the memoised DFS of the model computes the unique declarative status map on exactly the dependency cone (schedule_refines), submits a target iff cone ∧ (failed ∨ cancelled ∨ (not in flight ∧ (stale ∨ some dependency not completed))), never resubmits in-flight targets, each once, dependencies first, with exactly the not-completed direct dependencies as prerequisites; the requested set: a target is selected iff some pattern matches its name (mem_select), a metacharacter-free pattern matches exactly that name and '*' every name (glob_literal, glob_star, any length). Tied to the code by SUBMITTED_STATES regenerated from source and by running the real schedule() against the model plus the property predicate on every explored case.",
+   note="Model covers scheduling._schedule/_cached_schedule/schedule, should_run, Graph.from_targets, _flatten/_norm_path. status_func assumed constant within an invocation. Name patterns: the fnmatch subset (*, ?, [..], [!..], ranges) is modelled in Glob.lean and compared with the real NameFilter on 6 000 [200 000] generated (pattern, name) pairs per run; names are restricted to valid target names.",
    technique="Lean 4 proof (induction on fuel/rank, DFS invariant, refinement to declarative fixpoint) + differential correspondence with property-predicate oracle",
    design="§6-C02"),
 }
